@@ -41,7 +41,8 @@ func init() { fw.Register(&c13{}) }
 func (p *c13) ID() string { return propID }
 
 func (p *c13) Rule() string {
-	return "case kind = generated index mod 6: (0) 8 decimals (coefficient <= 40 digits, exponent -30..30, both signs, trailing zeros) plus 2 number-like texts (if goflow accepts one, the number it denotes is checked); " +
+	return "case kind = generated index mod 6: (0) 8 decimals (coefficient <= 40 digits, exponent -30..30, both signs, trailing zeros) plus 2 number-like texts (if goflow accepts one, the number it denotes is checked) " +
+		"plus 2 extreme numbers (rendering of hundreds to thousands of characters: |exponent| 100..3000, rendering length within 3 of a round length, 150..1600-digit coefficients, products / powers, JSON numbers with |E| <= 1000 read by parse_json's reader); " +
 		"(1) one instant (year 1..9999 uniform / modern / boundary years / within 26h of a zone transition; second and sub-second parts; 24 zones incl. DST, half-hour, midnight-DST, fixed offsets, UTC) " +
 		"through the ISO form and all 3x4 environment date/time formats under one environment zone; " +
 		"(2) one XDate and one XTime through ISO and all environment formats; (3) one JSON document (nesting <= 6, escapes, surrogate pairs, big/exponent numbers |E|<=400, duplicate / case-variant / empty / escaped keys, random whitespace); " +
@@ -74,6 +75,7 @@ func (p *c13) CaseTimeoutS() int { return 30 }
 func (p *c13) Floors(tier string) []string {
 	return []string{
 		"num.text_roundtrip", "num.json_roundtrip", "num.nonint_or_big",
+		"num.extreme", "num.render_over_256_chars", "num.render_over_1000_chars", "num.extreme.via_json_read",
 		"dt.iso", "dt.iso_json", "dt.env_format", "dt.env_format.ampm_midnight_or_noon", "dt.near_transition",
 		"date.iso", "date.env_format", "time.iso", "time.env_format",
 		"json.docs", "json.nested", "json.dup_keys", "json.case_variant_keys", "json.empty_key", "json.escapes", "json.surrogate_pairs", "json.big_numbers", "json.via_evaluator",
@@ -161,6 +163,9 @@ func (p *c13) Run(c fw.Case) fw.Result {
 		switch c.Directed {
 		case "numbers":
 			cr.directedNumbers()
+			// the directed part of the extreme class runs inside this case: a new directed name would shift the
+			// index (and with it the content) of every generated case
+			cr.directedNumbersExtreme()
 		case "datetimes-grid":
 			cr.directedDatetimes()
 		case "dates-times-grid":
